@@ -156,7 +156,7 @@ func wConfig(prop, tier string) *Config {
 		ops := []string{"llp_open_t1_x3", "llp_open_t1_x2_again", "llp_open_t2_x5", "llp_open_t3_x9", "llp_open_t3_dust", "llp_close_half_t1", "llp_close_full_t1", "llp_close_1share_t1", "llp_close_allbut1_t1", "llp_close_full_t2", "llp_update_sl_t1", "llp_bot_close_all", "llp_bot_stoploss_all",
 			"unbond_lp2_all", "price_atom_2", "price_atom_1", "price_atom_12", "swap_in_p1_usdc_atom_XL", "join_p1_all_t1", "exit_p1_10pct_lp1", "gap_30d", "cfg_llp_fallback_off", "empty"}
 		cfg.Oracles = []*Oracle{OracleC08()}
-		rootsLlp := []string{"R0", "R1", "R3", "R5"}
+		rootsLlp := []string{"R0", "R1", "R3", "R5", "R14"}
 		if thorough {
 			cfg.Phases = []Phase{{Name: "full-depth3", Roots: rootsLlp, Ops: ops, Depth: 3, Dev: 3}, {Name: "positions-depth4", Roots: []string{"R1", "R5"}, Ops: []string{"llp_open_t1_x3", "llp_open_t1_x2_again", "llp_open_t2_x5", "llp_open_t3_x9", "llp_close_half_t1", "llp_close_full_t1", "llp_close_allbut1_t1", "llp_bot_close_all", "unbond_lp2_all", "price_atom_2", "price_atom_1", "gap_30d", "empty"}, Depth: 4, Dev: 3}}
 		} else {
@@ -165,7 +165,7 @@ func wConfig(prop, tier string) *Config {
 	case "C09":
 		ops := []string{"perp_open_long_t1", "perp_open_long_atomcoll_t1", "perp_open_long_t3_x5", "perp_open_short_t2", "perp_open_short_t2_dust", "perp_topup_t1", "perp_close_half_t1", "perp_close_full_t1", "perp_close_full_t2", "perp_close_half_t2", "perp_update_tp_t1", "perp_update_sl_t1", "perp_bot_close_all",
 			"price_atom_4", "price_atom_3", "price_atom_6.5", "price_atom_8", "gap_1d", "gap_30d", "swap_in_p1_usdc_atom_L", "join_p1_all_t1", "exit_p1_10pct_lp1",
-			"perp_open_long_t3_huge", "exit_p1_90pct_lp1", "perp_update_sl_t2", "perp_bot_close_all_at_4.4", "perp_bot_close_all_at_3", "perp_bot_close_all_at_5.6", "perp_bot_close_all_at_8", "perp_bot_close_all_at_2"}
+			"perp_open_long_t3_huge", "exit_p1_90pct_lp1", "perp_update_sl_t2", "perp_bot_takeprofit_all_at_8", "perp_bot_takeprofit_all_at_2", "perp_bot_stoploss_all_at_4.4", "perp_bot_stoploss_all_at_5.6", "perp_bot_close_all_at_4.4", "perp_bot_close_all_at_3", "perp_bot_close_all_at_5.6", "perp_bot_close_all_at_8", "perp_bot_close_all_at_2"}
 		cfg.Oracles = []*Oracle{OracleC09()}
 		if thorough {
 			cfg.Phases = []Phase{{Name: "full-depth3", Roots: roots01, Ops: ops, Depth: 3, Dev: 3}, {Name: "settlement-depth4", Roots: roots01, Ops: []string{"perp_open_long_t1", "perp_open_short_t2", "perp_open_long_t3_x5", "perp_topup_t1", "perp_close_half_t1", "perp_close_full_t2", "perp_bot_close_all", "price_atom_3", "price_atom_8", "gap_30d", "swap_in_p1_usdc_atom_L", "exit_p1_10pct_lp1"}, Depth: 4, Dev: 3}}
@@ -174,7 +174,7 @@ func wConfig(prop, tier string) *Config {
 		}
 	case "C11":
 		ops := []string{"swap_in_p1_usdc_atom_L", "swap_out_p1_atom_usdc_D", "join_p1_all_t1", "exit_p1_10pct_lp1", "perp_open_long_t1", "perp_open_long_atomcoll_t1", "perp_open_short_t2", "perp_topup_t1", "perp_close_half_t1", "perp_close_full_t1", "perp_close_full_t2", "perp_update_tp_t1", "perp_bot_close_all",
-			"gap_1d", "price_atom_4", "price_atom_8", "llp_open_t1_x3", "empty", "perp_open_long_t3_small", "perp_open_long_t3_lowlev", "perp_update_sl_t1", "perp_update_sl_t2", "perp_bot_close_all_at_4.4", "perp_bot_close_all_at_3", "perp_bot_close_all_at_5.6", "perp_bot_close_all_at_8", "perp_bot_close_all_at_2", "perp_bot_liquidate_t1_only", "perp_bot_liquidate_t2_only", "perp_bot_liquidate_t3_only"}
+			"gap_1d", "price_atom_4", "price_atom_8", "llp_open_t1_x3", "empty", "perp_open_long_t3_small", "perp_open_long_t3_lowlev", "perp_update_sl_t1", "perp_update_sl_t2", "perp_bot_takeprofit_all_at_8", "perp_bot_takeprofit_all_at_2", "perp_bot_stoploss_all_at_4.4", "perp_bot_stoploss_all_at_5.6", "perp_bot_close_all_at_4.4", "perp_bot_close_all_at_3", "perp_bot_close_all_at_5.6", "perp_bot_close_all_at_8", "perp_bot_close_all_at_2", "perp_bot_liquidate_t1_only", "perp_bot_liquidate_t2_only", "perp_bot_liquidate_t3_only"}
 		cfg.Oracles = []*Oracle{OracleC11()}
 		if thorough {
 			cfg.Phases = []Phase{{Name: "full-depth3", Roots: roots01, Ops: ops, Depth: 3, Dev: 3}, {Name: "hooks-depth4", Roots: []string{"R0"}, Ops: []string{"swap_in_p1_usdc_atom_L", "join_p1_all_t1", "exit_p1_10pct_lp1", "perp_open_long_t1", "perp_open_short_t2", "perp_topup_t1", "perp_close_half_t1", "perp_close_full_t2", "perp_bot_close_all", "gap_1d", "price_atom_8", "empty"}, Depth: 4, Dev: 3}}
@@ -183,7 +183,7 @@ func wConfig(prop, tier string) *Config {
 		}
 	case "C12":
 		ops := []string{"bond_lp1_L", "unbond_lp2_half", "unbond_lp1_all", "join_p1_all_t1", "exit_p1_all_t1", "exit_p1_10pct_lp1", "join_p2_all_t1", "exit_p2_all_t1", "llp_open_t1_x3", "llp_close_full_t1", "llp_bot_close_all", "mc_claim_lp1", "commit_eden_lp1", "commit_edenb_lp1", "uncommit_eden_lp1",
-			"vest_eden_lp1", "cancel_vest_lp1", "claim_vesting_lp1", "stake_elys_lp1", "unstake_elys_lp1", "gap_59m", "gap_61m", "price_atom_2", "empty", "exit_p2_all_lp1", "unbond_lp2_all", "estaking_withdraw_lp1", "unstake_elys_lp1_all", "uncommit_eden_lp1_all", "uncommit_edenb_lp1_all", "stake_eden_lp1", "unstake_eden_lp1"}
+			"vest_eden_lp1", "cancel_vest_lp1", "claim_vesting_lp1", "stake_elys_lp1", "unstake_elys_lp1", "gap_59m", "gap_61m", "price_atom_2", "empty", "exit_p2_all_lp1", "unbond_lp2_all", "estaking_withdraw_lp1", "unstake_elys_lp1_all", "uncommit_eden_lp1_all", "uncommit_edenb_lp1_all", "stake_eden_lp1", "unstake_eden_lp1", "llp_open_t2_x5", "llp_close_full_t2_at_1", "llp_close_full_t1_at_1", "llp_bot_close_all_at_1"}
 		cfg.Oracles = []*Oracle{OracleC12()}
 		roots016 := []string{"R0", "R1", "R6", "R8"}
 		if thorough {
@@ -193,7 +193,7 @@ func wConfig(prop, tier string) *Config {
 		}
 	case "C13":
 		ops := []string{"swap_in_p1_usdc_atom_L", "swap_in_p2_usdc_elys_L", "fee_tx_uusdc", "fee_tx_uatom", "fee_tx_uelys", "perp_open_long_t1", "perp_close_full_t1", "gap_1d", "ext_incentive_lp1", "ext_incentive_now_lp1", "join_p1_all_t1", "exit_p1_all_t1", "exit_p1_10pct_lp1", "join_p2_all_lp2", "bond_lp1_L", "unbond_lp2_half",
-			"llp_open_t1_x3", "llp_close_full_t1", "mc_claim_lp1", "mc_claim_lp2", "mc_claim_t1", "empty", "nofeed", "join_p2_big_t1", "join_p2_big_t1_nofeed"}
+			"llp_open_t1_x3", "llp_close_full_t1", "mc_claim_lp1", "mc_claim_lp2", "mc_claim_t1", "empty", "nofeed", "join_p2_big_t1", "join_p2_big_t1_nofeed", "mc_claim_lp1_repeated_ids", "mc_claim_lp1_pool2_twice", "mc_claim_lp1_empty_list", "mc_claim_lp1_unknown_pool"}
 		cfg.Oracles = []*Oracle{OracleC13()}
 		if thorough {
 			cfg.Phases = []Phase{{Name: "full-depth3", Roots: []string{"R0", "R1", "R4", "R9"}, Ops: ops, Depth: 3, Dev: 3}}
@@ -258,7 +258,7 @@ func wConfig(prop, tier string) *Config {
 				{Name: "core-depth3", Roots: []string{"R0"}, Ops: []string{"ts_spot_limitbuy_met_own1", "ts_spot_stoploss_unmet_own1", "ts_perp_long_met_own1", "ts_perp_long_met_huge_own1", "ts_perp_short_unmet_own1", "ts_perp_long_met_own2", "ts_spot_limitbuy_met_own2", "ts_cancel_everyones_by_own2", "ts_cancel_all_by_own1", "ts_execute_all_bot", "cfg_perp_maxpos0", "price_atom_3"}, Depth: 3, Dev: 3}}
 		}
 	case "C10":
-		ops := []string{"llp_open_t1_x3_stoploss", "llp_open_t2_x5", "llp_open_t3_x9", "llp_open_t1_x2_again", "perp_open_long_t1_stoploss", "perp_open_short_t2", "perp_open_long_t3_x5", "perp_open_long_t3_max", "perp_topup_t1", "perp_update_sl_t1",
+		ops := []string{"llp_open_t1_x3_stoploss", "llp_open_t2_x5", "llp_open_t3_x9", "llp_open_t1_x2_again", "llp_topup_lev1_t1", "llp_topup_lev1_t1_at_2", "llp_topup_lev1_t1_at_1", "perp_open_long_t1_stoploss", "perp_open_short_t2", "perp_open_long_t3_x5", "perp_open_long_t3_max", "perp_topup_t1", "perp_update_sl_t1",
 			"price_atom_4", "price_atom_3", "price_atom_2", "price_atom_6.5", "price_atom_8", "price_atom_12", "gap_1d", "gap_30d",
 			"llp_bot_close_all", "llp_bot_stoploss_all", "llp_bot_stoploss_all_at_4", "llp_bot_close_all_at_2", "llp_bot_close_all_at_1", "llp_other_trader_closes_all", "perp_bot_liquidate_all", "perp_bot_stoploss_all", "perp_bot_takeprofit_all", "perp_bot_close_all", "perp_other_trader_closes_all_twice",
 			"perp_close_half_t1", "llp_close_half_t1", "unbond_lp2_all", "empty"}
